@@ -371,6 +371,9 @@ fn lanczos_event(out: &mut Out, case: &str, sh: &Value, mat: &Mat, rep: u64, dea
 }
 
 pub fn run(args: &Args) -> i32 {
+    if args.get("lsteps").is_some() {
+        return lanczos_steps(args);
+    }
     let seed = arg_u64(args, "seed", 1);
     let reps = arg_u64(args, "reps", 3);
     // deadline of one call, seconds (normal times: < 5 s for the largest matrices)
@@ -471,5 +474,219 @@ pub fn run(args: &Args) -> i32 {
     }
     let n = out.finish();
     println!("{}", json!({"events": n, "lanczos_skipped_outside_domain": skipped}));
+    0
+}
+
+// ---------------------------------------------------------------------------------------------
+// Lanczos step traces (`--lsteps <file>`): kernel_lanczos run with the hooks of src/matrix/gf2.rs
+// recording one event per block; the events go to <file> for spec/gf2/LanczosTrace.tla, the
+// returned vectors go to `--out` as ordinary kernel_lanczos events for spec/gf2/Gf2Trace.tla.
+
+fn hex_bits(v: &Value) -> Value {
+    let w = u64::from_str_radix(v.as_str().unwrap_or("0"), 16).unwrap_or(0);
+    json!((0..64).filter(|i| (w >> i) & 1 == 1).collect::<Vec<u32>>())
+}
+fn hex_rows(v: &Value) -> Value {
+    json!(v.as_array().map(|a| a.iter().map(hex_bits).collect::<Vec<Value>>()).unwrap_or_default())
+}
+
+/// One hooked run.  Returns true if the call did not come back.
+fn lanczos_steps_run(out: &mut Out, steps: &mut Out, rng: &mut StdRng, case: &str, sh: &Value, mat: &Mat, full: bool, deadline: f64) -> bool {
+    let (nrows, ncols) = (mat.nrows, mat.cols.len());
+    let base = json!({"op": "kernel_lanczos", "case": case, "rep": 0, "shape": sh, "nrows": nrows, "ncols": ncols, "m": mat.cols});
+    let sm = SparseMat { k: nrows, cols: mat.cols.clone() };
+    yamaquasi::verif::start();
+    let r = guard_deadline(deadline, move || {
+        kernel_lanczos(&sm, Verbosity::Silent).into_iter().map(|v| v.into_usizes()).collect::<Vec<Vec<usize>>>()
+    });
+    let raw: Vec<Value> = yamaquasi::verif::stop().iter().filter_map(|l| serde_json::from_str::<Value>(l).ok()).collect();
+    // the events of THIS call: the thread of the last lz_init (an abandoned earlier call may still be talking)
+    let tid = raw.iter().rev().find(|e| e["op"] == "lz_init").map(|e| e["tid"].clone());
+    let evs: Vec<&Value> = raw.iter().filter(|e| Some(&e["tid"]) == tid.as_ref() && e["op"].as_str().map_or(false, |o| o.starts_with("lz_"))).collect();
+    let niter = evs.iter().filter(|e| e["op"] == "lz_iter").count();
+    // which iterations carry the 64 x 64 matrices for the expensive checks: all (full), or the first 3,
+    // the last 3 and 5 random ones
+    let mut heavy = vec![full; niter];
+    if !full {
+        for k in 0..niter.min(3) {
+            heavy[k] = true;
+            heavy[niter - 1 - k] = true;
+        }
+        for _ in 0..5 {
+            if niter > 0 {
+                heavy[rng.gen_range(0..niter)] = true;
+            }
+        }
+    }
+    let returned = match &r {
+        Ok(k) => json!(k.len()),
+        Err(_) => json!(-1),
+    };
+    let mut it = 0;
+    let mut seen_init = false;
+    for e in evs {
+        let op = e["op"].as_str().unwrap();
+        match op {
+            "lz_init" => {
+                seen_init = true;
+                steps.ev(json!({"op": "lz_init", "case": case, "shape": sh, "nrows": nrows, "ncols": ncols, "nx": e["nx"], "ny": e["ny"],
+                    "lsize": e["lsize"], "gram": hex_rows(&e["gram"]), "gginv": hex_rows(&e["gginv"]), "nz": hex_bits(&e["nz"])}));
+            }
+            "lz_iter" => {
+                let h = heavy[it];
+                it += 1;
+                let term = e["term"].as_bool().unwrap_or(false);
+                let mut v = json!({"op": "lz_iter", "case": case, "idx": e["idx"], "rev": e["rev"], "rk": e["rk"], "mask": hex_bits(&e["mask"]),
+                    "term": term, "nz": hex_bits(&e["nz"]), "proj": e["proj"], "freed": e["freed"], "heavy": h,
+                    "yorth": if term { json!(true) } else { e["yorth"].clone() }});
+                if h {
+                    v = merge(v, json!({"gram": hex_rows(&e["gram"]), "ginvg": if term { json!([]) } else { hex_rows(&e["ginvg"]) }}));
+                }
+                steps.ev(v);
+            }
+            "lz_exit" => {
+                steps.ev(json!({"op": "lz_exit", "case": case, "blocks": e["blocks"], "dimker": e["dimker"], "kept": e["kept"],
+                    "bynz": hex_bits(&e["bynz"]), "returned": returned}));
+            }
+            _ => {}
+        }
+    }
+    match r {
+        Ok(k) => {
+            out.ev(merge(base, json!({"k": k})));
+            false
+        }
+        Err(o) => {
+            // a panic / timeout of the call: closes the run in the step trace too
+            if seen_init {
+                steps.ev(merge(json!({"op": "lz_abort", "case": case}), o.clone()));
+            }
+            let hung = o["outcome"] == "timeout";
+            out.ev(merge(base, o));
+            hung
+        }
+    }
+}
+
+/// rank of Q^3, Q = M^T M (n x n over GF(2), n = number of columns; only used for tiny n)
+fn rank_q3(mat: &Mat) -> usize {
+    let n = mat.cols.len();
+    let cols: Vec<Bits> = mat.cols.iter().map(|c| from_indices(c, mat.nrows)).collect();
+    let mut q: Vec<Bits> = vec![vec![0u64; words(n)]; n];
+    for i in 0..n {
+        for j in 0..n {
+            let dot: u32 = cols[i].iter().zip(cols[j].iter()).map(|(a, b)| (a & b).count_ones()).sum();
+            if dot % 2 == 1 {
+                bflip(&mut q[i], j);
+            }
+        }
+    }
+    let mul = |a: &Vec<Bits>, b: &Vec<Bits>| -> Vec<Bits> {
+        (0..n)
+            .map(|i| {
+                let mut r = vec![0u64; words(n)];
+                for k in 0..n {
+                    if bget(&a[i], k) {
+                        bxor(&mut r, &b[k]);
+                    }
+                }
+                r
+            })
+            .collect()
+    };
+    let q3 = mul(&mul(&q, &q), &q);
+    eliminate(&q3, words(n)).piv.iter().filter(|p| p.is_some()).count()
+}
+
+fn lanczos_steps(args: &Args) -> i32 {
+    let seed = arg_u64(args, "seed", 1);
+    let thorough = arg_str(args, "tier", "quick") == "thorough";
+    let deadline = arg_u64(args, "deadline", 300) as f64;
+    let maxcols = arg_u64(args, "maxcols", if thorough { 6100 } else { 3100 }) as usize;
+    let nshapes = arg_u64(args, "nshapes", if thorough { 24 } else { 9 }) as usize;
+    let mut out = Out::create(arg_str(args, "out", "trace.ndjson"));
+    let mut steps = Out::create(arg_str(args, "lsteps", "lsteps.ndjson"));
+    let mut rng = rng_for(seed, "c14-lsteps");
+    let mut hung_calls = 0;
+    let mut runs = 0;
+    let mut skipped = 0;
+    // small fixed shapes at the lower end of the domain (65 columns: one more than the block width) ...
+    let mut shapes: Vec<Value> = vec![
+        json!({"alg": "lanczos", "nrows": 130, "ncols": 65, "corank": 0, "profile": "dense", "nzero": 0, "ndup": 0, "lowend": true}),
+        json!({"alg": "lanczos", "nrows": 129, "ncols": 70, "corank": 3, "profile": "dense", "nzero": 0, "ndup": 0, "lowend": true}),
+        json!({"alg": "lanczos", "nrows": 131, "ncols": 129, "corank": 3, "profile": "uniform", "nzero": 1, "ndup": 1}),
+        json!({"alg": "lanczos", "nrows": 150, "ncols": 190, "corank": 5, "profile": "sieve", "nzero": 2, "ndup": 2}),
+    ];
+    // ... and a seeded selection of the Lanczos shapes enumerated by Gf2Shapes.tla, smallest sizes first
+    if let Some(p) = args.get("shapes") {
+        let mut ls: Vec<Value> = read_ndjson(p).into_iter().filter(|s| s["alg"] == "lanczos" && (s["ncols"].as_u64().unwrap_or(0) as usize) <= maxcols).collect();
+        ls.shuffle(&mut rng);
+        ls.truncate(nshapes);
+        ls.sort_by_key(|s| s["ncols"].as_u64().unwrap_or(0));
+        shapes.extend(ls);
+    }
+    for (i, sh) in shapes.iter().enumerate() {
+        let mat = build(&mut rng, sh);
+        let hrank = {
+            let vecs: Vec<Bits> = mat.cols.iter().map(|c| from_indices(c, mat.nrows)).collect();
+            eliminate(&vecs, words(mat.cols.len())).piv.iter().filter(|p| p.is_some()).count()
+        };
+        let lowend = sh["lowend"].as_bool().unwrap_or(false);
+        // same scheduling rule as the main driver (documented domain: rank >= 100).  The low-end shapes
+        // (65 / 70 columns) are outside it; what the first step of the code needs there is that the cube of
+        // Q = M^T M has rank > 64 (else it draws random blocks for ever): rebuilt until that holds.
+        let mut mat = mat;
+        let mut hrank = hrank;
+        if lowend {
+            let mut tries = 0;
+            while rank_q3(&mat) < 65 && tries < 40 {
+                mat = build(&mut rng, sh);
+                tries += 1;
+            }
+            if rank_q3(&mat) < 65 {
+                skipped += 1;
+                continue;
+            }
+            hrank = 100;
+        }
+        if mat.nrows < 128 || hrank < 100 {
+            skipped += 1;
+            continue;
+        }
+        // which blocks carry their 64 x 64 matrices: all of them unless --sample is given
+        let full = args.get("sample").is_none();
+        let mut variants: Vec<(String, Mat)> = vec![(format!("lsteps/{}", i), Mat { nrows: mat.nrows, cols: mat.cols.clone() })];
+        // equal last rows on a partial block of 64 rows
+        if mat.nrows % 64 >= 2 && i % 2 == 0 && !lowend {
+            let mut m2 = Mat { nrows: mat.nrows, cols: mat.cols.clone() };
+            let (r1, r2) = (mat.nrows - 2, mat.nrows - 1);
+            let nc = m2.cols.len();
+            let picks: Vec<usize> = (0..5).map(|_| rng.gen_range(0..nc)).collect();
+            for (j, c) in m2.cols.iter_mut().enumerate() {
+                let has = c.contains(&r2) ^ picks.contains(&j);
+                c.retain(|&x| x != r1 && x != r2);
+                if has {
+                    c.push(r1);
+                    c.push(r2);
+                }
+            }
+            variants.push((format!("lsteps/{}/tailpair", i), m2));
+        }
+        for (case, m) in variants.iter() {
+            if hung_calls >= 2 {
+                skipped += 1;
+                continue;
+            }
+            // the low-end shape is outside the documented domain (rank >= 100): short deadline
+            let dl = if lowend { deadline.min(60.0) } else { deadline };
+            if lanczos_steps_run(&mut out, &mut steps, &mut rng, case, sh, m, full, dl) {
+                hung_calls += 1;
+            }
+            runs += 1;
+        }
+    }
+    let n = out.finish();
+    let ns = steps.finish();
+    println!("{}", json!({"events": n, "step_events": ns, "runs": runs, "lanczos_skipped_outside_domain": skipped}));
     0
 }
